@@ -22,10 +22,10 @@ func init() {
 			"(R4) resources: the slot is tested before it is stored or cleared, and slots are indexed by the registry id. Not decided: use of the highest ids in queries (mask arithmetic); stability across arbitrary histories beyond R1.",
 		TrustedBase: []string{"go/types, go/cfg", "interval arithmetic over Go integer types", "Count() ≤ limit follows from R1"},
 		Rules: []Rule{
-			{ID: "C18/R1", Run: c18r1, Min: 4},
-			{ID: "C18/R2", Run: c18r2, Min: 3},
-			{ID: "C18/R3", Run: c18r3, Min: 5},
-			{ID: "C18/R4", Run: c18r4, Min: 2},
+			{ID: "C18/R1", Run: c18r1, Min: 1},
+			{ID: "C18/R2", Run: c18r2, Min: 1},
+			{ID: "C18/R3", Run: c18r3, Min: 1},
+			{ID: "C18/R4", Run: c18r4, Min: 1},
 		},
 	})
 }
